@@ -38,3 +38,9 @@ Print Assumptions C04_collector_order_free.
 Theorem C04_map_ranges_classified : forallb (classified range_classes) map_ranges_gen = true.
 Proof. exact map_ranges_classified. Qed.
 Print Assumptions C04_map_ranges_classified.
+
+(* no clock, timer, deadline, CPU count, environment variable or random source feeds the analysis: every such use in the
+   source tree (regenerated inventory) is presentation-only or confined to internal-error messages *)
+Theorem C04_ambient_inputs_classified : forallb (classified ambient_classes) ambient_gen = true.
+Proof. exact ambient_classified. Qed.
+Print Assumptions C04_ambient_inputs_classified.
